@@ -53,6 +53,14 @@ def _redshift_histogram(patch: Patch, binning: Binning) -> NDArray:
     return counts[1:-1].astype(np.float64)
 
 
+def _indexed_redshift_histogram(
+    index: int, patch: Patch, binning: Binning
+) -> tuple[int, NDArray]:
+    """Worker function that returns the histogram of a patch together with the
+    index of the patch, since parallel workers finish in arbitrary order."""
+    return index, _redshift_histogram(patch, binning)
+
+
 def resample_jackknife(observations: NDArray, patch_rows: bool = True) -> NDArray:
     """
     Compute jackknife samples from an array of histogram counts with shape
@@ -127,16 +135,17 @@ class HistData(CorrData):
             config = config.binning
 
         patch_count_iter = parallel.iter_unordered(
-            _redshift_histogram,
-            catalog.values(),
+            _indexed_redshift_histogram,
+            enumerate(catalog.values()),
             func_kwargs=dict(binning=config.binning),
+            unpack=True,
             max_workers=max_workers,
         )
         if progress:
             patch_count_iter = Indicator(patch_count_iter, len(catalog))
 
         counts = np.empty((len(catalog), config.num_bins))
-        for i, patch_count in enumerate(patch_count_iter):
+        for i, patch_count in patch_count_iter:
             counts[i] = patch_count
         parallel.COMM.Bcast(counts, root=0)
 
